@@ -8,6 +8,9 @@ cd /verif/harness && cp /repo/Cargo.lock Cargo.lock 2>/dev/null || true
 cd /verif/harness && cargo build --offline --target-dir target-stable --features hooks
 cd /verif/harness && cargo +nightly build --offline --target-dir target-nightly --features hooks,nightly
 cd /verif/harness && cargo +nightly build --offline --target-dir target-simd --features hooks,nightly,simd
+# release-profile runners (optimised, no debug assertions / overflow checks): every request is answered by them too (VERIF_RELEASE=0 skips)
+cd /verif/harness && cargo build --release --offline --target-dir target-release --features hooks
+cd /verif/harness && cargo +nightly build --release --offline --target-dir target-nightly-release --features nightly
 clang -shared -fPIC -O1 -o /verif/work/mlock_fail.so /verif/interpose/mlock_fail.c -ldl
 clang -shared -fPIC -O1 -o /verif/work/free_scan.so /verif/interpose/free_scan.c -ldl
 echo setup-ok
